@@ -594,7 +594,7 @@ func c12ApplyTamper(t *rapid.T, v *c12View, objs map[string][]byte, key string) 
 			ce.Timestamp += rapid.SampledFrom([]int64{1, -1, 1000}).Draw(t, "dt")
 			es[i] = &ce
 		case "reindex":
-			ce.Index = rapid.SampledFrom([]int64{ce.Index + 1, max(0, ce.Index-1), es[j].Index, 0, 1<<40 - 1}).Draw(t, "newIdx")
+			ce.Index = rapid.SampledFrom([]int64{min(ce.Index+1, 1<<40-1), max(0, ce.Index-1), es[j].Index, 0, 1<<40 - 1}).Draw(t, "newIdx")
 			ce.Archival = false
 			es[i] = &ce
 		case "flip-type":
@@ -883,6 +883,23 @@ func (w *c12World) failDesc() string {
 	return s
 }
 
+// consultedTampered evaluates the non-triviality rule "a tampered object was consulted by the
+// call". Over HTTP the requests are observed. For file modes they are not, so only the data
+// tile holding the first index the call needs (which it certainly reads) is counted.
+func (w *c12World) consultedTampered(focus int64) bool {
+	if w.srv.rt != nil {
+		return w.srv.consulted(w.tampered)
+	}
+	if focus < 0 || focus >= w.v.n {
+		return false
+	}
+	tile, width := focus/256, 256
+	if tile == w.v.n/256 {
+		width = int(w.v.n % 256)
+	}
+	return w.tampered[vfref.TilePath("data", -1, tile, width)]
+}
+
 // expectComplete: every object the client looked at was honest in all
 // authenticated content, so the call must behave as on the honest log.
 func (w *c12World) expectComplete() bool {
@@ -1023,7 +1040,7 @@ func TestVerifC12Iterators(t *testing.T) {
 				}
 			}
 		}
-		nt := w.srv.consulted(w.tampered)
+		nt := w.consultedTampered(start)
 		cls := append(w.classes(), "mode:"+mode, "outcome:"+outcome)
 		if nt {
 			cls = append(cls, "tampered-object-consulted")
@@ -1227,7 +1244,7 @@ func TestVerifC12EntryAndSCT(t *testing.T) {
 			if idx < 0 || idx >= n {
 				cls = append(cls, "index-out-of-range")
 			}
-			nt := w.srv.consulted(w.tampered)
+			nt := w.consultedTampered(idx)
 			if nt {
 				cls = append(cls, "tampered-object-consulted")
 			}
@@ -1291,7 +1308,7 @@ func TestVerifC12EntryAndSCT(t *testing.T) {
 		if len(why) == 0 {
 			cls = append(cls, "sct-matches-authentic-leaf")
 		}
-		consulted := w.srv.consulted(w.tampered)
+		consulted := w.srv.rt != nil && w.srv.consulted(w.tampered)
 		if consulted {
 			cls = append(cls, "tampered-object-consulted")
 		}
@@ -1626,6 +1643,7 @@ func TestVerifC12BundleSweep(t *testing.T) {
 	defer debug.SetGCPercent(debug.SetGCPercent(400)) // many short-lived tile buffers
 	key := c12Keys()[c12KeyLog]
 	var bad, novel []string // forgeries explained by the known finding / not explained by it
+	known := 0
 	for n := int64(257); n <= c12MaxN; n++ {
 		v, alt := c12ViewOf("main", n), c12ViewOf("alt", n)
 		for k := int64(0); k*256 < n; k++ {
@@ -1662,6 +1680,7 @@ func TestVerifC12BundleSweep(t *testing.T) {
 				line := fmt.Sprintf("n=%d tile=%d (first forged index %d, %d forged entries, Err()=%v)", n, k, first, forged, c.Err())
 				if c12IsKnownForgery(n, k*256, first, harm) {
 					cls = "forged-entries-yielded:known-finding"
+					known++
 					if c12ExcludeKnown() {
 						cls = "excluded-known-finding"
 					} else {
@@ -1682,6 +1701,7 @@ func TestVerifC12BundleSweep(t *testing.T) {
 			rec.Case(fmt.Sprintf("bundle n=%d tile=%d", n, k), true, cls, part)
 		}
 	}
+	rec.Note("bundle sweep: %d forged (size, tile) combinations explained by the known tile-authentication finding, %d unexplained (exclusion switch %v)", known, len(novel), c12ExcludeKnown())
 	if len(novel) > 0 {
 		show := novel
 		if len(show) > 12 {
